@@ -204,6 +204,10 @@ def check_span(m, r, fails):
     if "\n" in inner and pre[:1] in "#->":
         pre, post = "a ", " b"       # (a span that holds a line ending cannot sit in a one-line block)
     doc = pre + "`" * n + inner + "`" * n + post + "\n"
+    if r.random() < 0.25:
+        # an EARLIER block that holds an unpaired run of backticks of the same length (what one block's scan learns about backtick runs
+        # is of no concern to the next block)
+        doc = r.choice(["Press the %s key\n\n", "# about %s\n\n", "- item %s\n\n", "> quote %s x\n\n", "| %s |\n|---|\n\n"]) % ("`" * n) + doc
     expected = spec_codespan(inner)
     if not inner or inner.endswith("`") or inner.startswith("`"):
         return
